@@ -512,6 +512,8 @@ def standard_check(prop, tier, seed, replay=None):
                 shard_args = prop.shards(tier, seed)
             cases, failing, errors = run_shards(ctx, shard_args, "run")
             ctx.log("cases=%d failing=%d errors=%d" % (len(cases), len(failing), len(errors)))
+            for e in errors[:3]:
+                ctx.log("error: " + e[-1500:])
             if errors:
                 tie_broken = "correspondence run failed:\n" + "\n".join(errors)[-4000:]
 
